@@ -53,7 +53,7 @@ def kernel_level(ctx, pairs):
         ends2 = set(2 * v for v in A[0] + A[1] + B[0] + B[1])
         for op, key in (("intersect", "intersect"), ("union", "union"), ("set_diff", "diff")):
             R = r[key][:2]
-            bad = pointwise(A, B, R, op, -1, 9, ends2)
+            bad = pointwise(A, B, R, op, -11, 9, ends2)
             if bad is not None:
                 ctx.fail("oracle", "kernel %s wrong at x=%s" % (op, bad), inp, impl=R)
             if not all(v in (A[0] + A[1] + B[0] + B[1]) for v in R[0] + R[1]):
@@ -89,6 +89,11 @@ def api_level(ctx, n, sets):
         A = ctx.rng.choice(sets); B = ctx.rng.choice(sets) if k % 7 else A
         if k % 11 == 0:
             B = ([], [])
+        if k % 3 == 0:
+            off = -ctx.rng.choice([4, 9])
+            A2 = ([v + off for v in A[0]], [v + off for v in A[1]])
+            B = A2 if B is A else ([v + off for v in B[0]], [v + off for v in B[1]])
+            A = A2
         sc = ctx.rng.choice([1000, 2000, 10**6, 10**9])
         inp = dict(level="api", A=A, B=B, scale_ns=sc)
         ctx.case(("a", tuple(A[0]), tuple(A[1]), tuple(B[0]), tuple(B[1]), sc))
@@ -137,7 +142,8 @@ def nary(ctx, n, sets):
     lines, meta = [], []
     for k in range(n):
         m = ctx.rng.randint(3, 5)
-        S = [ctx.rng.choice([s for s in sets if s[0]]) for _ in range(m)]
+        off = ctx.rng.choice([0, -9])
+        S = [(lambda s_: ([v + off for v in s_[0]], [v + off for v in s_[1]]))(ctx.rng.choice([s for s in sets if s[0]])) for _ in range(m)]
         sc = ctx.rng.choice([1000, 10**9])
         inp = dict(level="nary", sets=S, scale_ns=sc)
         ctx.case(("n", repr(S), sc))
@@ -172,7 +178,9 @@ def nary(ctx, n, sets):
 
 def run(ctx):
     sets = gen.canonical_sets(7, 3)
-    pairs = [(A, B) for A in sets for B in sets]
+    sh = lambda S, o: ([v + o for v in S[0]], [v + o for v in S[1]])
+    # every second pair is translated to negative times (buffers are zero-initialised: sign matters)
+    pairs = [((A, B) if (i + j) % 2 else (sh(A, -9), sh(B, -9))) for i, A in enumerate(sets) for j, B in enumerate(sets)]
     if not ctx.quick:
         big = gen.canonical_sets(8, 4)
         pairs += [(ctx.rng.choice(big), ctx.rng.choice(big)) for _ in range(150000)]
